@@ -39,7 +39,7 @@ func VerifC06Replay() {
 	defer rt.Cleanup()
 	max := int64(20)
 	if rt.Tier() == 1 {
-		max = 30
+		max = 24
 	}
 	n := int(rt.Fix(rt.Int("len", 0, max)))
 	body := rt.Bytes("wal", n)
@@ -68,7 +68,7 @@ func VerifC06ReplayTG() {
 	defer rt.Cleanup()
 	lo, hi := int64(8), int64(22)
 	if rt.Tier() == 1 {
-		hi = 34
+		hi = 26
 	}
 	n := int(rt.Fix(rt.Int("tglen", lo, hi)))
 	body := rt.Bytes("tg", n)
